@@ -602,4 +602,187 @@ theorem mkContig_isSome (l : List N) (hne : l ≠ []) : (mkContig l).isSome := b
   rw [hm, find?_zip_map (fun tp => (sounding notes tp).length) (fun k => k == maxCnt notes), hc, hmax]
   simp only [Option.map_some, hss, Option.bind_some, hst, Option.isSome_some]
 
+-- ------------------------------------------------------------------ what `Contig(notes)` holds
+
+theorem mapM_forall2 {α β : Type} (f : α → Option β) : ∀ (l : List α) (ys : List β),
+    l.mapM f = some ys → List.Forall₂ (fun x y => f x = some y) l ys := by
+  intro l
+  induction l with
+  | nil => intro ys h; simp at h; subst h; exact List.Forall₂.nil
+  | cons a r ih =>
+    intro ys h
+    simp only [List.mapM_cons, Option.bind_eq_bind, Option.pure_def] at h
+    cases ha : f a with
+    | none => simp [ha] at h
+    | some b =>
+      cases hr : r.mapM f with
+      | none => simp [ha, hr] at h
+      | some bs =>
+        simp [ha, hr] at h
+        subst h
+        exact List.Forall₂.cons ha (ih bs hr)
+
+theorem forall2_mem_right {α β : Type} (R : α → β → Prop) : ∀ (l : List α) (ys : List β),
+    List.Forall₂ R l ys → ∀ y ∈ ys, ∃ x ∈ l, R x y := by
+  intro l ys h
+  induction h with
+  | nil => intro y hy; simp at hy
+  | cons hab _ ih =>
+    intro y hy
+    rcases List.mem_cons.mp hy with rfl | hy
+    · exact ⟨_, List.mem_cons_self .., hab⟩
+    · obtain ⟨x, hx, hr⟩ := ih y hy
+      exact ⟨x, List.mem_cons_of_mem _ hx, hr⟩
+
+theorem addToStreams_mem (P : N → Prop) : ∀ (ss : List (List N)) (ns : List N) (ss' : List (List N)),
+    addToStreams ss ns = some ss' → (∀ s ∈ ss, ∀ x ∈ s, P x) → (∀ x ∈ ns, P x) → ∀ s ∈ ss', ∀ x ∈ s, P x := by
+  intro ss
+  induction ss with
+  | nil =>
+    intro ns ss' h hs hn
+    cases ns with
+    | nil => simp [addToStreams] at h; subst h; exact hs
+    | cons a r => simp [addToStreams] at h
+  | cons s rest ih =>
+    intro ns ss' h hs hn
+    cases ns with
+    | nil => simp [addToStreams] at h; subst h; exact hs
+    | cons a r =>
+      simp only [addToStreams, Option.map_eq_some_iff] at h
+      obtain ⟨r', hr', rfl⟩ := h
+      intro t ht x hx
+      rcases List.mem_cons.mp ht with rfl | ht
+      · split at hx
+        · exact hs s (List.mem_cons_self ..) x hx
+        · rcases List.mem_append.mp hx with hx | hx
+          · exact hs s (List.mem_cons_self ..) x hx
+          · simp at hx; subst hx; exact hn _ (List.mem_cons_self ..)
+      · exact ih r r' hr' (fun s' hs' => hs s' (List.mem_cons_of_mem _ hs'))
+          (fun y hy => hn y (List.mem_cons_of_mem _ hy)) t ht x hx
+
+theorem fold_streams_mem (notes : List N) (P : N → Prop) (hP : ∀ x ∈ notes, P x) :
+    ∀ (ons : List Rat) (ss ss' : List (List N)),
+    ons.foldlM (fun ss o => addToStreams ss (sounding notes o)) ss = some ss' →
+    (∀ s ∈ ss, ∀ x ∈ s, P x) → ∀ s ∈ ss', ∀ x ∈ s, P x := by
+  intro ons
+  induction ons with
+  | nil => intro ss ss' h hs; simp at h; subst h; exact hs
+  | cons o rest ih =>
+    intro ss ss' h hs
+    simp only [List.foldlM_cons, Option.bind_eq_bind] at h
+    cases h1 : addToStreams ss (sounding notes o) with
+    | none => simp [h1] at h
+    | some s1 =>
+      simp only [h1, Option.bind_some] at h
+      apply ih s1 ss' h
+      apply addToStreams_mem P ss _ s1 h1 hs
+      intro x hx
+      simp only [sounding, byPitch, mem_isort, List.mem_filter] at hx
+      exact hP x hx.1
+
+theorem mkStream_ends (l : List N) (str : Stream) (h : mkStream l = some str) :
+    str.first ∈ l ∧ str.last ∈ l := by
+  unfold mkStream at h
+  cases hb : byOnset l with
+  | nil => simp [hb] at h
+  | cons f rest =>
+    simp only [hb, Option.map_eq_some_iff] at h
+    obtain ⟨lst, hl, rfl⟩ := h
+    have hsub : ∀ x ∈ f :: rest, x ∈ l := by
+      intro x hx
+      rw [← hb] at hx
+      exact (mem_isort _ x l).mp hx
+    exact ⟨hsub f (List.mem_cons_self ..), hsub lst (List.mem_of_find?_eq_some hl)⟩
+
+/-- what `Contig(notes)` holds: as many streams as the maximal number of simultaneously sounding
+    notes, as many first notes, at most as many last notes; all of them notes of the contig -/
+theorem mkContig_spec (l : List N) (hne : l ≠ []) :
+    ∃ raw, mkContig l = some raw ∧ raw.streams.length = maxCnt (byOnset l) ∧
+      raw.first.length = maxCnt (byOnset l) ∧ raw.last.length ≤ maxCnt (byOnset l) ∧
+      (∀ s ∈ raw.streams, s.first ∈ l ∧ s.last ∈ l) ∧ (∀ x ∈ raw.first, x ∈ l) ∧ (∀ x ∈ raw.last, x ∈ l) := by
+  have hnotes : byOnset l ≠ [] := by
+    intro e
+    have := congrArg List.length e
+    simp only [byOnset, isort_length, List.length_nil] at this
+    exact hne (List.eq_nil_of_length_eq_zero this)
+  have hmemN : ∀ x, x ∈ byOnset l ↔ x ∈ l := fun x => mem_isort _ x l
+  generalize hN : byOnset l = notes at hnotes hmemN
+  have hcounts : (timepoints notes).map (fun tp => (sounding notes tp).length) = (timepoints notes).map (cnt notes) :=
+    List.map_congr_left (fun t _ => sounding_length notes t)
+  have hutp := timepoints_ne_nil notes hnotes
+  have hex : ∃ c ∈ timepoints notes, cnt notes c = maxCnt notes := by
+    rcases foldl_max_mem ((timepoints notes).map (cnt notes)) 0 with h | h
+    · obtain ⟨t, ht⟩ := List.exists_mem_of_ne_nil _ hutp
+      refine ⟨t, ht, ?_⟩
+      have := cnt_le_max notes t ht
+      unfold maxCnt at this ⊢
+      omega
+    · obtain ⟨t, ht, e⟩ := List.mem_map.mp h
+      exact ⟨t, ht, e⟩
+  have hfind : ((timepoints notes).find? fun t => (sounding notes t).length == maxCnt notes).isSome := by
+    rw [List.find?_isSome]
+    obtain ⟨c, hc, e⟩ := hex
+    exact ⟨c, hc, by simp [sounding_length, e]⟩
+  obtain ⟨c, hc⟩ := Option.isSome_iff_exists.mp hfind
+  obtain ⟨hpc, as, bs, hsplit, has⟩ := List.find?_eq_some_iff_append.mp hc
+  have hcm : cnt notes c = maxCnt notes := by simpa [sounding_length] using hpc
+  have hfirst : ∀ t ∈ timepoints notes, t < c → cnt notes t ≠ maxCnt notes := by
+    intro t ht hlt
+    have hs := timepoints_strict notes
+    rw [hsplit] at ht hs
+    rcases List.mem_append.mp ht with h | h
+    · have := has t h
+      simpa [sounding_length] using this
+    · exfalso
+      have hp := (List.pairwise_append.mp hs).2.1
+      rcases List.mem_cons.mp h with rfl | h
+      · exact lt_irrefl _ hlt
+      · exact lt_asymm hlt ((List.pairwise_cons.mp hp).1 t h)
+  obtain ⟨maxOn, hmax⟩ := Option.isSome_iff_exists.mp
+    (maxRat_isSome (notes.map fun n => n.on) (by simpa using hnotes))
+  have hle : ∀ o ∈ (uniqueOnsets notes).filter (fun o => decide (c ≤ o)), (sounding notes o).length ≤ maxCnt notes := by
+    intro o ho
+    rw [sounding_length]
+    apply cnt_le_max
+    obtain ⟨n, hn, e⟩ := (mem_uniqueOnsets notes o).mp (List.mem_filter.mp ho).1
+    exact (mem_timepoints notes o).mpr (Or.inl ⟨n, hn, e⟩)
+  obtain ⟨ss, hss, hlen, _, hD⟩ := fold_streams notes (maxCnt notes) _ (List.replicate (maxCnt notes) [])
+    (by simp) hle
+  have hall : ∀ s ∈ ss, (mkStream s).isSome := by
+    intro s hs
+    apply mkStream_isSome
+    obtain ⟨i, hi, rfl⟩ := List.mem_iff_getElem.mp hs
+    have hpos : 0 < maxCnt notes := by omega
+    obtain ⟨n, hn, e⟩ := first_max_is_onset notes c hcm hpos hfirst
+    have hco : c ∈ (uniqueOnsets notes).filter (fun o => decide (c ≤ o)) :=
+      List.mem_filter.mpr ⟨(mem_uniqueOnsets notes c).mpr ⟨n, hn, e⟩, by simp⟩
+    exact hD c hco i (by rw [sounding_length, hcm, ← hlen]; exact hi) _ (List.getElem?_eq_getElem hi)
+  obtain ⟨st, hst⟩ := Option.isSome_iff_exists.mp (mapM_isSome mkStream ss hall)
+  have hm : ((timepoints notes).map fun tp => (sounding notes tp).length).foldl max 0 = maxCnt notes := by
+    rw [hcounts]; rfl
+  have hssmem : ∀ s ∈ ss, ∀ x ∈ s, x ∈ l :=
+    fold_streams_mem notes (fun x => x ∈ l) (fun x hx => (hmemN x).mp hx) _ _ ss hss
+      (by intro s hs x hx; simp [List.mem_replicate] at hs; rw [hs.2] at hx; simp at hx)
+  have hf2 := mapM_forall2 mkStream ss st hst
+  have hsound : ∀ t x, x ∈ sounding notes t → x ∈ l := by
+    intro t x hx
+    simp only [sounding, byPitch, mem_isort, List.mem_filter] at hx
+    exact (hmemN x).mp hx.1
+  refine ⟨{ streams := st, first := sounding notes c, last := sounding notes maxOn }, ?_, ?_, ?_, ?_, ?_, ?_, ?_⟩
+  · simp only [mkContig, hN]
+    rw [hm, find?_zip_map (fun tp => (sounding notes tp).length) (fun k => k == maxCnt notes), hc, hmax]
+    simp only [Option.map_some, hss, Option.bind_some, hst]
+  · simp only [← hf2.length_eq, hlen]
+  · simp only [sounding_length, hcm]
+  · simp only [sounding_length]
+    apply cnt_le_max
+    obtain ⟨n, hn, e⟩ := List.mem_map.mp (maxRat_mem _ _ hmax)
+    exact (mem_timepoints notes maxOn).mpr (Or.inl ⟨n, hn, e⟩)
+  · intro str hstr
+    obtain ⟨s, hs, hms⟩ := forall2_mem_right _ ss st hf2 str hstr
+    obtain ⟨h1, h2⟩ := mkStream_ends s str hms
+    exact ⟨hssmem s hs _ h1, hssmem s hs _ h2⟩
+  · exact hsound c
+  · exact hsound maxOn
+
 end C17T
